@@ -59,6 +59,8 @@ pub mod gitignore;
 pub mod overrides;
 mod pathutil;
 pub mod types;
+#[cfg(feature = "verif-hooks")]
+pub mod verif;
 mod walk;
 
 /// Represents an error that can occur when parsing a gitignore file.
